@@ -164,6 +164,27 @@ func (t *Table) inUnique(col string) bool {
 	return false
 }
 
+// tagUnique reports whether a unique key over cols is certain to hold for the rows of Populate, also
+// when some of the columns were added after the rows were stored: at least one column is stored and
+// has no default (it holds distinct tags, or only NULLs when it is new).
+func (t *Table) tagUnique(cols []string) bool {
+	for _, cn := range cols {
+		if c := t.Col(cn); c != nil && c.Gen == nil && c.Default == nil {
+			return true
+		}
+	}
+	return false
+}
+
+func (t *Table) isFKCol(col string) bool {
+	for _, f := range t.FKs {
+		if slices.Contains(f.Cols, col) {
+			return true
+		}
+	}
+	return false
+}
+
 // Neighbourhood enumerates EVERY elementary edit of the catalogue that applies to s and keeps the
 // model valid — the exhaustive single-edit neighbourhood. The order is deterministic.
 func Neighbourhood(s Schema) []Edit {
@@ -241,10 +262,10 @@ func Neighbourhood(s Schema) []Edit {
 			if c.Gen == nil && !t.InPK(cn) {
 				if c.Null {
 					if c.Default != nil {
-						add("col.null.to-notnull-default", tn, cn, !t.inUnique(cn), func(s *Schema) { C(s).Null = false })
+						add("col.null.to-notnull-default", tn, cn, !t.inUnique(cn) && !t.isFKCol(cn), func(s *Schema) { C(s).Null = false })
 					} else {
 						if d := DefaultForType(c.Type, 0); d != nil {
-							add("col.null.to-notnull-default", tn, cn+" (default added)", !t.inUnique(cn), func(s *Schema) { C(s).Null = false; C(s).Default = d })
+							add("col.null.to-notnull-default", tn, cn+" (default added)", !t.inUnique(cn) && !t.isFKCol(cn), func(s *Schema) { C(s).Null = false; C(s).Default = d })
 						}
 						add("col.null.to-notnull-nodefault", tn, cn, false, func(s *Schema) { C(s).Null = false })
 					}
@@ -357,7 +378,7 @@ func Neighbourhood(s Schema) []Edit {
 			if len(t.PK) >= 3 {
 				add("pk.reorder", tn, "rotate", true, func(s *Schema) { p := T(s).PK; T(s).PK = append(p[1:], p[0]) })
 			}
-			add("pk.shrink", tn, "drop last key column", false, func(s *Schema) { T(s).PK = T(s).PK[:len(T(s).PK)-1] })
+			add("pk.shrink", tn, "drop last key column", t.tagUnique(t.PK[:len(t.PK)-1]), func(s *Schema) { T(s).PK = T(s).PK[:len(T(s).PK)-1] })
 		}
 		if len(t.PK) >= 1 {
 			for _, c := range plain {
@@ -376,7 +397,7 @@ func Neighbourhood(s Schema) []Edit {
 						T(s).PK = append([]string{cn}, T(s).PK...)
 					})
 					if len(t.PK) == 1 {
-						add("pk.switch", tn, t.PK[0]+" -> "+cn, true, func(s *Schema) {
+						add("pk.switch", tn, t.PK[0]+" -> "+cn, t.tagUnique([]string{cn}), func(s *Schema) {
 							for i := range T(s).Cols {
 								T(s).Cols[i].AutoInc = false
 							}
@@ -398,7 +419,7 @@ func Neighbourhood(s Schema) []Edit {
 			for _, c := range plain {
 				if !c.Null {
 					cn := c.Name
-					add("pk.add", tn, cn, true, func(s *Schema) { T(s).PK = []string{cn} })
+					add("pk.add", tn, cn, t.tagUnique([]string{cn}), func(s *Schema) { T(s).PK = []string{cn} })
 					break
 				}
 			}
@@ -434,9 +455,9 @@ func Neighbourhood(s Schema) []Edit {
 					break
 				}
 			}
-			addIdx("idx.add.unique", uq.Name, true, func(n string) Idx { return Idx{Name: n, Unique: true, Parts: asc(uq.Name)} })
+			addIdx("idx.add.unique", uq.Name, t.tagUnique([]string{uq.Name}), func(n string) Idx { return Idx{Name: n, Unique: true, Parts: asc(uq.Name)} })
 			if !slices.Equal(t.PK, []string{uq.Name}) && t.Index(InlineName(tn, []string{uq.Name})) == nil {
-				add("idx.add.unique-constraint", tn, uq.Name, true, func(s *Schema) {
+				add("idx.add.unique-constraint", tn, uq.Name, t.tagUnique([]string{uq.Name}), func(s *Schema) {
 					T(s).Idx = append(T(s).Idx, Idx{Name: InlineName(tn, []string{uq.Name}), Unique: true, Parts: asc(uq.Name), Inline: true})
 				})
 			}
@@ -444,7 +465,7 @@ func Neighbourhood(s Schema) []Edit {
 			addIdx("idx.add.partial", first.Name+" WHERE "+pr, true, func(n string) Idx {
 				return Idx{Name: n, Parts: asc(first.Name), Where: pr, Refs: []string{mid.Name}}
 			})
-			addIdx("idx.add.unique-partial-desc", uq.Name+" DESC WHERE "+pr, true, func(n string) Idx {
+			addIdx("idx.add.unique-partial-desc", uq.Name+" DESC WHERE "+pr, t.tagUnique([]string{uq.Name}), func(n string) Idx {
 				return Idx{Name: n, Unique: true, Parts: []Part{{Col: uq.Name, Desc: true}}, Where: pr, Refs: []string{mid.Name}}
 			})
 			ie := idxExprs(mid)[0]
@@ -461,12 +482,13 @@ func Neighbourhood(s Schema) []Edit {
 				T(s).Idx = slices.DeleteFunc(T(s).Idx, func(i Idx) bool { return i.Name == in })
 			})
 			// uniqueness of an index over stored tagged columns holds; over expressions / generated it may not
-			safeU := true
+			var pcols []string
 			for _, p := range ix.Parts {
-				if p.Expr != "" || t.Col(p.Col).Gen != nil {
-					safeU = false
+				if p.Col != "" {
+					pcols = append(pcols, p.Col)
 				}
 			}
+			safeU := t.tagUnique(pcols)
 			add("idx.unique.flip", tn, in, ix.Unique || safeU, func(s *Schema) { I(s).Unique = !I(s).Unique; I(s).Inline = false })
 			add("idx.desc.flip", tn, in, true, func(s *Schema) { I(s).Parts[0].Desc = !I(s).Parts[0].Desc; I(s).Inline = false })
 			if ix.Where == "" {
@@ -522,7 +544,7 @@ func Neighbourhood(s Schema) []Edit {
 					p[0], p[1] = p[1], p[0]
 					I(s).Inline = false
 				})
-				add("idx.part.drop", tn, in+" - last", !ix.Unique, func(s *Schema) { I(s).Parts = I(s).Parts[:len(I(s).Parts)-1]; I(s).Inline = false })
+				add("idx.part.drop", tn, in+" - last", !ix.Unique || t.tagUnique(pcols[:min(len(pcols), len(ix.Parts)-1)]) && ix.Parts[len(ix.Parts)-1].Col != "", func(s *Schema) { I(s).Parts = I(s).Parts[:len(I(s).Parts)-1]; I(s).Inline = false })
 			}
 			for k, p := range ix.Parts {
 				if p.Expr == "" {
